@@ -16,6 +16,43 @@ func init() {
 	register("C15", []string{"consensus/wal.go", "consensus/msgs.go", "consensus/replay.go", "consensus/state.go", "lib/autofile/group.go", "lib/autofile/autofile.go"}, runC15)
 }
 
+// walFieldRules: every field of the wire form of a WAL record is written by the encoder and read by the decoder (a peer id
+// dropped from a logged message comes back empty on replay, and the per-peer catch-up budget of the vote sets then rejects
+// what the live run accepted). Shared by C15 and C05.
+func walFieldRules(c *Ctx) {
+	enc, dec := c.Fn("consensus", "", "WALToProto"), c.Fn("consensus", "", "WALFromProto")
+	if enc == nil || dec == nil {
+		return
+	}
+	written := map[string]map[string]bool{}
+	allInstrs(enc, false, func(_ *ssa.Function, in ssa.Instruction) {
+		st, ok := in.(*ssa.Store)
+		if !ok {
+			return
+		}
+		if fa, ok := st.Addr.(*ssa.FieldAddr); ok {
+			t := namedOf(fa.X.Type())
+			if strings.HasPrefix(t, "proto/kardiachain/consensus.") {
+				if written[t] == nil {
+					written[t] = map[string]bool{}
+				}
+				written[t][fieldName(fa.X.Type(), fa.Field)] = true
+			}
+		}
+	})
+	reads := c.Effects(dec, 0).Reads
+	n := 0
+	for _, t := range []string{"proto/kardiachain/consensus.MsgInfo", "proto/kardiachain/consensus.TimeoutInfo", "proto/kardiachain/consensus.EndHeight"} {
+		for _, f := range c.namedFields(t) {
+			n++
+			short := t[strings.LastIndex(t, ".")+1:]
+			c.Check("S", "WAL record "+short+"/encoder consensus.WALToProto writes "+f, written[t][f], enc.Pos(), 1, "")
+			c.Check("S", "WAL record "+short+"/decoder consensus.WALFromProto reads "+f, reads[fieldRef{t, f}], dec.Pos(), 1, "")
+		}
+	}
+	c.Check("S", "WAL record fields enumerated", n >= 7, enc.Pos(), n, "")
+}
+
 func runC15(c *Ctx) {
 	c.Decided = []string{
 		"decoding allocates only behind the size limit, unmarshals only behind a matching CRC, and every non-EOF failure is a corruption error; a clean EOF is possible only at a frame boundary",
@@ -68,6 +105,7 @@ func runC15(c *Ctx) {
 	// ---- message codecs: same kinds both ways ---------------------------------------------------------------
 	c.kindsAgree("WAL message", "consensus.WALToProto", "consensus.WALFromProto", 4)
 	c.kindsAgree("consensus message", "consensus.MsgToProto", "consensus.MsgFromProto", 9)
+	walFieldRules(c)
 	if fn := c.Fn("consensus", "", "WALFromProto"); fn != nil {
 		c.Guarded(fn, "return a message", func(in ssa.Instruction) bool {
 			r, ok := in.(*ssa.Return)
